@@ -171,7 +171,7 @@ func (p *Prog) spliceIfs(x *TX, sp *spliceSite) []ifInfo {
 		}
 		if iff, ok := hb.Instrs[len(hb.Instrs)-1].(*ssa.If); ok {
 			t := substTerm(markHelperCounters(hx.Of(iff.Cond, iff)), env)
-			out = append(out, ifInfo{in: iff, atom: atomOfTerm(t), site: sp})
+			out = append(out, ifInfo{in: iff, atom: atomOfTerm(t), site: sp, t: t})
 		}
 	}
 	return out
